@@ -36,7 +36,7 @@ def build_sim():
     if not (os.path.exists(exe) and os.path.exists(stamp) and open(stamp).read() == tag):
         libdir = os.path.join(bd, "src/Imath")
         cmd = ["g++", "-std=c++17", "-O2", "-g1", "-I" + os.path.join(m, "src/Imath"), "-I" + os.path.join(bd, "config"),
-               os.path.join(HERE, "sim18.cpp"), "-o", exe, "-L" + libdir, "-lImath", "-Wl,-rpath," + libdir]
+               os.path.join(HERE, "sim18.cpp"), "-o", exe, "-L" + libdir, "-lImath", "-Wl,-rpath," + libdir, "-lpthread"]
         r = subprocess.run(cmd, capture_output=True, text=True)
         if r.returncode != 0:
             raise build.BuildError("sim18 does not compile against the tree:\n" + r.stderr[-3000:])
